@@ -31,8 +31,9 @@ const POOL_VALIDATION_TIMEOUT: Duration = Duration::from_secs(120);
 pub struct PoolTracker<S> {
     /// Height-specific pools: height -> peer pool
     hash_pools: HashMap<u64, PeerPool>,
-    /// Pools that were successfully validated
-    validated_pools: HashMap<Hash, Vec<PeerId>>,
+    /// Pools that were successfully validated, by height (data hashes can repeat across
+    /// heights, e.g. for empty blocks, so they cannot be used as a key)
+    validated_pools: HashMap<u64, Vec<PeerId>>,
     /// Highest known validated store height
     subjective_head: Option<u64>,
     /// Header store
@@ -197,7 +198,7 @@ where
             PeerPool::Validated(validated_hash) => {
                 if *validated_hash == data_hash {
                     self.validated_pools
-                        .entry(data_hash)
+                        .entry(height)
                         .or_default()
                         .push(peer_id);
                     self.pending_events
@@ -222,9 +223,9 @@ where
     /// header.
     pub fn get_pool(&self, height: u64) -> Result<Iter<'_, PeerId>, GetPoolError> {
         match self.hash_pools.get(&height) {
-            Some(PeerPool::Validated(data_hash)) => Ok(self
+            Some(PeerPool::Validated(_)) => Ok(self
                 .validated_pools
-                .get(data_hash)
+                .get(&height)
                 .expect("must exist if hash_pool exists")
                 .iter()),
             Some(PeerPool::Candidates(_)) => Err(GetPoolError::CandidatesNotValidated),
@@ -360,7 +361,7 @@ where
                         self.pending_events.push_back(Event::BlockPeers(bad_peers));
                     }
 
-                    self.validated_pools.insert(data_hash, validated_peers);
+                    self.validated_pools.insert(height, validated_peers);
                     *pool = PeerPool::Validated(data_hash);
                 }
                 PeerPool::Validated(_) => {
@@ -386,8 +387,8 @@ where
 
         for h in to_evict_start..=to_evict_end {
             match self.hash_pools.remove(&h) {
-                Some(PeerPool::Validated(hash)) => {
-                    self.validated_pools.remove(&hash);
+                Some(PeerPool::Validated(_)) => {
+                    self.validated_pools.remove(&h);
                 }
                 Some(PeerPool::Candidates(..)) | None => (),
             }
